@@ -337,12 +337,8 @@ theorem densify_hashing_counterexample :
     keepsAligned Cfg.fixed [.densify 4 (.hashing [("a", 1), ("b", 1)]) false true] wHashCollision = false := by decide +kernel
 example : keepsAligned Cfg.fixed [.densify 4 (.hashing [("a", 1), ("b", 2)]) false true] wHashCollision = true := by decide +kernel
 
-/- OPEN (not proved, therefore not stated as a theorem):
-   theorem densify_lookup_injective : for sparse rows d1 d2 with unique keys and no stored zero, a look-up table that is injective on
-   keys d1 ∪ keys d2 with all slots < n:  pyEq (makeDense d1) (makeDense d2) = pyEq (.dict d1) (.dict d2).
-   Proved so far about the table only: `densify_prior_monotone`, `densify_state_is_keys`, `fresh_densify_object`; what is missing is
-   the passage from distinct slots to distinct SparseDense rows (pyEqZ / zerosMatch against `expand`).  The hypothesis stays a
-   per-case evaluated one (`distinctB` of the densified actions) and is compared with the real filter on every case. -/
+/- `densify_lookup_injective` (distinct slots ⇒ distinct SparseDense rows), listed here as OPEN until phase 4, is proved in the Phase 5 section below
+   together with the list-level `densify_actions_distinct` and the end-to-end `densify_sparse_aligned`. -/
 
 /-! ### batched rewards: `Batch.Callable` -/
 
@@ -460,5 +456,110 @@ theorem model_uses_constants (n : Nat) :
        | .ok ps => ps.map (fun p => p.polR == .rotate 3)
        | .error _ => []) = [cycleRotatesAt 1 0, cycleRotatesAt 1 1, cycleRotatesAt 1 2] :=
   ⟨initDState_seed n, fun l => rotList_shift n l, cycle_after_used⟩
+
+/-! ## Phase 5 -/
+
+/-! ### Python `==` symmetric on dicts (pigeonhole on unique keys) -/
+
+/-- pigeonhole: a list of unique keys contained in another list of the same length contains every key of that list
+(`keys(d1) ⊆ keys(d2)` + `len(d1) == len(d2)` ⇒ equal key sets — what makes `dict.__eq__`, which only walks the left operand, symmetric) -/
+theorem dict_keys_pigeonhole (l1 l2 : List String) (hu : uniqKeys l1 = true) (hs : ∀ k ∈ l1, k ∈ l2)
+    (hl : l1.length = l2.length) : ∀ k ∈ l2, k ∈ l1 := uniq_subset_eq_length_superset l1 l2 hu hs hl
+
+/-- **goal 2**: `==` is symmetric on every value built from numbers, strings, categoricals, lists, tuples and dicts with unique keys
+(nested to any depth) — with `pyEq_refl` and `pyEq_trans` Python's `==` is an equivalence relation on the lazy-free value domain -/
+theorem pyEq_symm_wf (a b : Val) (ha : wfNoLazy a = true) (hb : wfNoLazy b = true) : pyEq a b = pyEq b a :=
+  pyEq_symm_wf' a b ha hb
+
+example : wfNoLazy (.dict [("a", catA), ("b", .dict [("x", .num 1), ("y", .num 2)])]) = true
+    ∧ pyEq (.dict [("b", .dict [("y", .num 2), ("x", .num 1)]), ("a", .str "a")]) (.dict [("a", catA), ("b", .dict [("x", .num 1), ("y", .num 2)])]) = true := by decide +kernel
+
+/-- unique keys are needed: with a repeated key the left-walking comparison is one-sided (`[("a",1),("a",1)]` finds all its entries in
+`[("a",1),("b",2)]`, not the other way round); Python cannot build such a dict, `wfNoLazy` excludes it -/
+theorem pyEq_symm_counterexample :
+    pyEq (.dict [("a", .num 1), ("a", .num 1)]) (.dict [("a", .num 1), ("b", .num 2)]) = true
+    ∧ pyEq (.dict [("a", .num 1), ("b", .num 2)]) (.dict [("a", .num 1), ("a", .num 1)]) = false := by decide +kernel
+
+/-! ### `==` on SparseDense rows -/
+
+/-- **goal 2, SparseDense part**: on well-formed rows (`wfRow`: lazy-free values, or a SparseDense with one entry per slot, slots below its
+length, lazy-free stored values — what `Densify` builds) `==` gives the same answer in both operand orders: SparseDense against list, tuple,
+SparseDense, and the freak comparisons against str / dict -/
+theorem pyEq_symm_rows (a b : Val) (ha : wfRow a = true) (hb : wfRow b = true) : pyEq a b = pyEq b a := pyEq_symm_rows' a b ha hb
+
+example : wfRow (.lazy [(2, .num 5), (0, catA)] 3) = true
+    ∧ pyEq (.lazy [(2, .num 5), (0, catA)] 3) (.tuple [.str "a", .num 0, .num 5]) = true
+    ∧ pyEq (.tuple [.str "a", .num 0, .num 5]) (.lazy [(2, .num 5), (0, catA)] 3) = true := by decide +kernel
+
+/-- two SparseDense rows are equal iff they have one length and are element-wise equal (stored value or implicit zero) -/
+theorem sparsedense_eq_elementwise (k1 k2 : List (Nat × Val)) (n1 n2 : Nat) (h1 : lazyWf k1 n1 = true) :
+    pyEq (.lazy k1 n1) (.lazy k2 n2) = true ↔ n2 = n1 ∧ ∀ i, i < n1 → pyEq (lazyAt k1 i) (lazyAt k2 i) = true :=
+  pyEq_lazy_lazy_iff k1 k2 n1 n2 h1
+
+/-! ### goal 1, Densify: distinct slots ⇒ distinct SparseDense rows ⇒ aligned, with no hypothesis on the output -/
+
+/-- `_make_dense` is, for every method and every state of the filter object, "put value v at slot(k)" for the slot function of the
+table the object ends up with (keys keep their slots while the table grows) -/
+theorem densify_rows_are_slot_rows (m : DMethod) (n : Nat) (st st' : DState) (as as' : List Val)
+    (h : makeDenseList m n st as = .ok (st', as')) : as' = as.map (denseOf (tableOf m st') n) :=
+  makeDenseList_eq_map m n (tableOf m st') st as st' as' h (fun _ _ hk => hk)
+
+/-- **densify_lookup_injective** (open since phase 2): a slot function that is injective on the keys of two sparse rows (unique keys,
+no stored zero), all slots below `n_feats`, gives dense rows that compare exactly as the sparse rows did -/
+theorem densify_lookup_injective (slot : String → Nat) (n : Nat) (d1 d2 : List (String × Val))
+    (w1 : sparseRowWf d1 = true) (w2 : sparseRowWf d2 = true)
+    (hlt : ∀ k ∈ d1.map (·.1) ++ d2.map (·.1), slot k < n)
+    (hinj : ∀ k ∈ d1.map (·.1) ++ d2.map (·.1), ∀ k' ∈ d1.map (·.1) ++ d2.map (·.1), slot k = slot k' → k = k') :
+    pyEq (.lazy (entsAcc slot d1 []) n) (.lazy (entsAcc slot d2 []) n) = pyEq (.dict d1) (.dict d2) :=
+  densify_rows_pyEq slot n d1 d2 w1 w2 hlt hinj
+
+/-- … hence Densify (look-up or hashing, any state of the object) keeps an action set of sparse rows a set as soon as the table gives
+the keys of that set pairwise different slots below `n_feats` -/
+theorem densify_actions_distinct (m : DMethod) (n : Nat) (st st' : DState) (as as' : List Val)
+    (hrun : makeDenseList m n st as = .ok (st', as')) (hrows : sparseRowsB as = true)
+    (hslots : slotsInjB (tableOf m st') (keysOfVals as) n = true) (hd : Distinct as) : Distinct as' :=
+  densify_actions_distinct' m n st st' as as' hrun hrows hslots hd
+
+/-- **Densify(action=True) on sparse actions (repaired code), end to end.**  For look-up (any history `prior` of the object) and hashing (any
+crc32 table), with or without the context: if the *input* stream meets the explicit decidable preconditions `densifySparseHypB` — reward /
+feedback functions answer for their own actions and are functional from the first interaction on, every action set is a set of sparse rows
+(unique keys, no stored zero), the logged action is literally its member, and the slot table `densifyTable` (a function of the keys of the
+input alone) gives the keys of each action set different slots below `n_feats` — then after Densify the i-th action earns what the i-th
+action earned before and the logged action is the same member.  `chainHypB` is discharged: nothing is assumed about the output. -/
+theorem densify_sparse_aligned (m : DMethod) (n : Nat) (c : Bool) (s s' : List Inter)
+    (hh : densifySparseHypB (densifyTable m n c true s) n s = true)
+    (hrun : runPrim Cfg.fixed (.densify n m c true) s = .ok s') : alignedStreamB s s' = true :=
+  densify_sparse_aligned' m n c s s' hh hrun
+
+example : densifySparseHypB (densifyTable (.hashing [("a", 1), ("b", 2)]) 4 false true wHashCollision) 4 wHashCollision = true
+    ∧ densifySparseHypB (densifyTable (.lookup []) 4 true true wHashCollision) 4 wHashCollision = true
+    ∧ densifySparseHypB (densifyTable (.lookup ["z", "y"]) 4 true true wHashCollision) 4 wHashCollision = true := by decide +kernel
+
+/-- both excluded shapes are necessary: colliding slots (`densify_hashing_counterexample`: the precondition is false there) and a stored zero -/
+theorem densify_sparse_counterexample :
+    densifySparseHypB (densifyTable (.hashing [("a", 1), ("b", 1)]) 4 false true wHashCollision) 4 wHashCollision = false
+    ∧ distinctB [.dict [("a", .num 0)], .dict []] = true
+    ∧ densifySparseHypB (densifyTable (.lookup []) 4 false true wStoredZero) 4 wStoredZero = false
+    ∧ keepsAligned Cfg.fixed [.densify 4 (.lookup []) false true] wStoredZero = false := by decide +kernel
+
+/-! ### translator tie (goal 3): Repr's mode names and EncodeCatRows' dispatch, extracted from the source under test -/
+
+/-- `Generated/C10ReprModes.lean` is rewritten on every run from `Repr.__init__`'s `Literal[...]` annotations (filters.py) and from
+`EncodeCatRows.__init__` / `_encode_values` / `_encode_collection.catset` (pipes/rows.py): the accepted mode names and, as Lean functions,
+the two `if / elif / else` chains on `self._tipe`.  They agree with the model's `modeName`, `valuesBranch`, `collBranch` on every mode. -/
+theorem repr_modes_match_source :
+    Coba.Generated.C10.reprContextModes = allModes.map modeName ∧ Coba.Generated.C10.reprActionModes = allModes.map modeName ∧
+    Coba.Generated.C10.encodeModes = allModes.map modeName ∧
+    (∀ m : Mode, Coba.Generated.C10.valuesBranch (modeName m) = valuesBranch m) ∧
+    (∀ m : Mode, Coba.Generated.C10.collBranch (modeName m) = collBranch m) := repr_modes_match_source'
+
+/-- … and those named tables are the ones the model (and the driver's parser) really use: the parser is the inverse of `modeName` and accepts
+nothing else; a scalar categorical is converted by the branch `valuesBranch` names; the row encoder's three branches are told apart by `collBranch` -/
+theorem model_uses_mode_dispatch :
+    (∀ m, modeOfName (modeName m) = some m) ∧ (∀ s m, modeOfName s = some m → s = modeName m) ∧
+    (∀ m v, encodeValue m v = if valuesBranch m = "str" then strOf v
+                              else (match onehotOf v with | .ok h => .ok (.tuple h) | .error e => .error e)) ∧
+    (∀ m m', collBranch m = collBranch m' → m = m') ∧ (∀ m, collBranch m = "str" ↔ m = .string) ∧ (∀ m, collBranch m = "flat" ↔ m = .onehot) :=
+  ⟨modeOfName_modeName, modeOfName_sound, encodeValue_branch, collBranch_injective, encodeAt_string_iff, encodeAt_flat_iff⟩
 
 end Coba.C10
